@@ -52,6 +52,15 @@ func replayMS(prop string) func(c *Ctx, raw json.RawMessage) {
 			c.Res.Inconcl = append(c.Res.Inconcl, "bad replay: "+err.Error())
 			return
 		}
+		var ap struct {
+			App     bool      `json:"app_level"`
+			Seed    uint64    `json:"seed"`
+			Pruning *[2]int64 `json:"pruning"`
+		}
+		if json.Unmarshal(raw, &ap) == nil && ap.App {
+			runC13App(c, "replay", ap.Seed, ap.Pruning)
+			return
+		}
 		rep := &caseReporter{c: c, caseID: "replay", replay: h}
 		if prop == "C12" {
 			storechk.RunC12(&h, rep)
@@ -62,6 +71,22 @@ func replayMS(prop string) func(c *Ctx, raw json.RawMessage) {
 }
 
 func runC13(c *Ctx) {
+	na := 8
+	if !c.Quick() {
+		na = 16 * 12
+	}
+	am := sim.NewRand(c.Seed ^ hashStr("C13app"))
+	prs := []*[2]int64{{0, 1}, {1, 2}, {100, 10000}, nil, {2, 3}, {5, 0}, {0, 3}, {3, 7}}
+	for i := 0; i < na; i++ {
+		r := am.Split(uint64(i))
+		if !c.Mine(i) {
+			continue
+		}
+		c.Res.Cases++
+		seed := r.U64()
+		runC13App(c, fmt.Sprintf("a%d", i), seed, prs[i%len(prs)])
+		c.Nontrivial(fmt.Sprintf("app-%d-%d", seed, i%len(prs)))
+	}
 	n := 64
 	if !c.Quick() {
 		n = 16 * 120
@@ -96,7 +121,7 @@ func init() {
 		Assume: []string{"MemDB stands for the database (its batch is applied under one lock)"}})
 	register(&PropDef{ID: "C13", Level: "fault_enumeration", Workers: workersFor(8, 16), Run: runC13, Replay: replayMS("C13"),
 		Rule:   "one case = one multistore history; for every commit of the history and every durable database write issued during that commit, the process is killed before that write, the database reopened, judged, and the interrupted block re-executed (exhaustive per history); non-trivial = at least one crash point; distinct by hash of the history",
-		Floors: map[string]int64{"c13.crash_points": 1000, "c13.outcome.previous_version": 500},
+		Floors: map[string]int64{"c13.crash_points": 1000, "c13.outcome.previous_version": 500, "c13.app.crash_points": 200, "c13.app.replays_ok": 100},
 		Assume: []string{"a database batch write is atomic (true for goleveldb and MemDB); torn writes below the database are out of scope", "crash points are database writes: Set/Delete/Batch.Write issued during Commit"}})
 }
 
@@ -159,6 +184,21 @@ func runC15(c *Ctx) {
 			c.Sample(p)
 		}
 	}
+	mm := sim.NewRand(c.Seed ^ hashStr("C15multi"))
+	nm := n / 10
+	for i := 0; i < nm; i++ {
+		r := mm.Split(uint64(i))
+		if !c.Mine(i) {
+			continue
+		}
+		p := storechk.GenCMProg(r)
+		c.Res.Cases++
+		storechk.RunCMProg(&p, &caseReporter{c: c, caseID: fmt.Sprintf("cm%d", i), replay: map[string]interface{}{"cachemulti": p}})
+		if i%8 == 0 {
+			bz, _ := json.Marshal(p)
+			c.Nontrivial("cm" + string(bz))
+		}
+	}
 	cm := sim.NewRand(c.Seed ^ hashStr("C15conc"))
 	for i := 0; i < nc; i++ {
 		r := cm.Split(uint64(i))
@@ -197,6 +237,7 @@ func runC15(c *Ctx) {
 
 func replayC15(c *Ctx, raw json.RawMessage) {
 	var x struct {
+		Multi      *storechk.CMProg `json:"cachemulti"`
 		Program    *storechk.CProg `json:"program"`
 		Concurrent *struct {
 			Seed       uint64 `json:"seed"`
@@ -206,6 +247,9 @@ func replayC15(c *Ctx, raw json.RawMessage) {
 		} `json:"concurrent"`
 	}
 	json.Unmarshal(raw, &x)
+	if x.Multi != nil {
+		storechk.RunCMProg(x.Multi, &caseReporter{c: c, caseID: "replay", replay: raw})
+	}
 	if x.Program != nil {
 		storechk.RunCProg(x.Program, &caseReporter{c: c, caseID: "replay", replay: raw})
 	}
@@ -283,7 +327,7 @@ func replayC16(c *Ctx, raw json.RawMessage) {
 func init() {
 	register(&PropDef{ID: "C15", Level: "exploration", Workers: workersFor(8, 16), Run: runC15, Replay: replayC15, Race: true,
 		Rule:   "sequential: one case = one operation program (5-60 ops, nesting <= 4, four parent kinds) compared op-by-op with a sorted-map model, non-trivial = >= 10 ops, distinct by hash of the program; concurrent: one case = one recorded history of 4-12 goroutines on 2-4 keys checked by porcupine per key, non-trivial = it contains overlapping operations; the same workload runs under the Go race detector",
-		Floors: map[string]int64{"c15.seq.iterations": 2000, "c15.seq.writes": 1000, "c15.seq.iterations_with_interleaved_write": 500, "c15.conc.histories": 100, "c15.conc.overlapping_ops": 1000},
+		Floors: map[string]int64{"c15.seq.iterations": 2000, "c15.seq.writes": 1000, "c15.seq.iterations_with_interleaved_write": 500, "c15.conc.histories": 100, "c15.conc.overlapping_ops": 1000, "c15.cachemulti.writes": 500, "c15.cachemulti.discards": 100},
 		Assume: []string{"operations are applied to the innermost open wrapper only (the parent is not written behind a live wrapper)", "writes during an open iterator are judged by the weak guarantees of DESIGN.md C15"}})
 	register(&PropDef{ID: "C16", Level: "exploration", Workers: workersFor(8, 16), Run: runC16, Replay: replayC16,
 		Rule:   "one case = one operation program against a stacking of prefix/gas/trace/cache wrappers over a MemDB parent holding keys inside and outside the prefix, with a gas limit placed next to an operation boundary or a meter pre-loaded next to 2^64; every case is distinct by hash and non-trivial (>= 4 ops)",
